@@ -33,7 +33,7 @@ def shards(tier, seed):
     return out
 
 
-def session(kind, shape, step, scb):
+def session(kind, shape, step, scb, bystander=False):
     info = {"close_step": None, "close_ret_step": None, "open_after_a_close_returned": []}
 
     async def scenario(sim):
@@ -130,7 +130,7 @@ def session(kind, shape, step, scb):
             if not c.lost and not c.closing:
                 c.feed(packet(kind, 230))
         await asyncio.sleep(40.0)
-    sim, stats = simgw.run_session(kind, scenario, status_cb=scb, recv_cb="slow" if shape == "slow_receive_cb" else "ok")
+    sim, stats = simgw.run_session(kind, scenario, status_cb=scb, recv_cb="slow" if shape == "slow_receive_cb" else "ok", bystander=bystander)
     return sim, stats, info
 
 
@@ -210,11 +210,14 @@ def run_shard(spec, acc):
     if quick and len(steps) > 60:
         steps = steps[:40] + steps[40::4]
     for step in steps:
-        sim, stats, info = session(kind, shape, step, scb)
+        by = step % 3 == 1          # every third session shares process and loop with an untouched second client
+        sim, stats, info = session(kind, shape, step, scb, bystander=by)
         res = check(sim, stats, info, acc, kind, shape, step, scb)
+        if by and sim is not None and not stats["error"]:
+            simgw.judge_bystander(sim, acc, {"client": kind, "shape": shape, "step": step, "status_cb": scb})
         if scb == "raise" and res is not None:
             # a raising status callback must not change what the client does
-            sim2, stats2, info2 = session(kind, shape, step, "ok")
+            sim2, stats2, info2 = session(kind, shape, step, "ok", bystander=by)
             if not stats2["error"] and info2["close_step"] is not None:
                 res2 = {"status": sim2.status, "attempts": len(sim2.attempts), "received": len(sim2.received), "final": sim2.state_changes[-1][1]}
                 acc.count("raising_vs_benign_compared")
